@@ -182,6 +182,10 @@ def _tm_histories(sp, tmm, check_pus_crc, Service17Tm, c, stamp, src, want, wo, 
     fields changed through the public header objects."""
     devs = []
     ts = len(stamp)
+    from ..core import copies_equal
+
+    copies_equal(devs, "hist.copy_of_never_packed", build_tm(tmm, c, stamp, src), lambda o: bytes(o.pack()), want)
+    copies_equal(devs, "hist.copy_of_decoded", tmm.PusTm.unpack(want, ts), lambda o: bytes(o.pack()), want)
     pack_fresh(devs, "hist.pack_returns_fresh_buffer", tm.pack, want)
     # equality does not depend on whether either side was ever packed
     true(devs, "hist.eq_decoded_vs_never_packed", bool(tmm.PusTm.unpack(want, ts) == build_tm(tmm, c, stamp, src)) and bool(build_tm(tmm, c, stamp, src) == tmm.PusTm.unpack(want, ts)),
@@ -224,6 +228,14 @@ def _tm_histories(sp, tmm, check_pus_crc, Service17Tm, c, stamp, src, want, wo, 
     eq(devs, "hist.defaults.source_data_appended_in_place.bytes", bytes(d3.pack()), RP.pus_tm(0, 0, c["service"], c["subservice"], 0, 0, 0, stamp, b"\x07\x08"))
     eq(devs, "hist.defaults.source_data_appended_in_place.later_object", bytes(tmm.PusTm(service=c["service"], subservice=c["subservice"], timestamp=stamp).pack()), wdef)
     eq(devs, "hist.defaults.source_data_appended_in_place.empty", bytes(tmm.PusTm.empty().tm_data), b"")
+    # equality right after a field change on an object that carries a trailer from an earlier pack / decode, against the packet
+    # decoded from the octets of the new values - before anything re-packs the changed object
+    w_apid = RP.pus_tm((c["apid"] + 1) % 2048, c["seq"], c["service"], c["subservice"], c["msg_counter"], c["dest_id"], c["time_ref"], stamp, src, ver=c["ver"])
+    for how, o_ch in (("packed", build_tm(tmm, c, stamp, src)), ("decoded", tmm.PusTm.unpack(want, ts))):
+        o_ch.pack()
+        o_ch.apid = (c["apid"] + 1) % 2048
+        d_new = tmm.PusTm.unpack(w_apid, ts)
+        true(devs, f"hist.eq_right_after_setter.{how}", bool(o_ch == d_new) and bool(d_new == o_ch), "changed packet != packet decoded from the octets of its new values")
     # printing is pure: str() / repr() of a never-packed packet change nothing about what is packed after a later field change,
     # also with recalc_crc=False (no trailer has been computed yet, so one is computed)
     for printed in (False, True):
